@@ -915,6 +915,24 @@ def i_XCHG(i, fmap):
     fmap[op2] = tmp
 
 
+def i_XADD(i, fmap):
+    fmap[eip] = fmap[eip] + i.length
+    op1 = i.operands[0]
+    op2 = i.operands[1]
+    a = fmap(op1)
+    b = fmap(op2)
+    x, carry, overflow = AddWithCarry(a, b)
+    fmap[pf] = parity8(x[0:8])
+    fmap[af] = halfcarry(a, b)
+    fmap[zf] = x == 0
+    fmap[sf] = x.bit(-1)
+    fmap[cf] = carry
+    fmap[of] = overflow
+    # the source receives the old destination first, so that XADD r,r leaves the sum
+    fmap[op2] = a
+    fmap[op1] = x
+
+
 def i_SHR(i, fmap):
     op1 = i.operands[0]
     count = fmap(i.operands[1] & 0x1F)
@@ -1178,6 +1196,18 @@ def i_DIV(i, fmap):
     r_ = fmap(md_ % s_)
     fmap[d] = r_[0 : d.size]
     fmap[m] = q_[0 : m.size]
+
+
+def i_IDIV(i, fmap):
+    fmap[eip] = fmap[eip] + i.length
+    src = i.operands[0]
+    m, d = {8: (al, ah), 16: (ax, dx), 32: (eax, edx)}[src.size]
+    md_ = fmap(composer([m, d])).signed()
+    s_ = fmap(src).signextend(md_.size).signed()
+    q_ = md_ / s_
+    r_ = md_ % s_
+    fmap[d] = r_[0 : src.size]
+    fmap[m] = q_[0 : src.size]
 
 
 def i_RDRAND(i, fmap):
